@@ -681,6 +681,33 @@ example : emitOpreduceCode .add (some .addImmediate) 3 0 (.imm 5) [.reg 2] = [mk
       ⟨[Witness.WV.n 10, .n 0, .n 7, .n 0], 0⟩ [] = some (.ok (.n (-2)), []) :=
   ⟨rfl, rfl⟩
 
+namespace Witness
+
+/-- a universe in which `get` works: `tab` stores `false` (= `n 0`) under key 0 and nothing under key 1; `mMul` plays nil -/
+def gOther (op : Op) (a b : WV) (w : List String) : Except String WV × List String :=
+  match op, a, b with
+  | .get, .tab, .n 0 => (.ok (.n 0), w ++ ["get 0"])
+  | .get, .tab, .n 1 => (.ok .mMul, w ++ ["get 1"])
+  | _, _, _ => (.error "unsupported", w)
+
+def gIsNil (v : WV) : Bool := v == .mMul
+
+def GP : Prims := { WP with nil := WV.mMul, isNil := gIsNil, other := gOther }
+
+end Witness
+
+/-- non-vacuity of `get3_computes` / `fixed_emitted_eq_generic` with a `get` that returns values: the emitted code keeps a stored `false`
+    (`n 0`, falsy but not nil) and takes the default 7 only for the missing key - while the same code with `JOP_JUMP_IF` in place of
+    `JOP_JUMP_IF_NOT_NIL` (what `special_ops_ok` excludes) would replace the stored `false` by the default -/
+example :
+    exec Witness.GP (emitGet3 .get .jumpIfNotNil 3 0 1 2 ++ [mkD .return 3]) 9 ⟨[Witness.WV.tab, .n 0, .n 7, .n 9], 0⟩ [] =
+      some (.ok (.n 0), ["get 0"]) ∧
+    exec Witness.GP (emitGet3 .get .jumpIfNotNil 3 0 1 2 ++ [mkD .return 3]) 9 ⟨[Witness.WV.tab, .n 1, .n 7, .n 9], 0⟩ [] =
+      some (.ok (.n 7), ["get 1"]) ∧
+    exec Witness.GP (emitGet3 .get .jumpIf 3 0 1 2 ++ [mkD .return 3]) 9 ⟨[Witness.WV.tab, .n 0, .n 7, .n 9], 0⟩ [] =
+      some (.ok (.n 7), ["get 0"]) :=
+  ⟨rfl, rfl, rfl⟩
+
 /-! ### `apply`: `do_apply` against the bytecode `make_apply` assembles; calls with a splice -/
 
 /-- the structure of `do_apply` the model `Spec.emitApply` / `Spec.pushLeading` mirrors -/
